@@ -15,6 +15,11 @@
 //!     mun=..                            unstripe() of ScoringMatrix::score (default dispatch)
 //!     sp=<pos>:<v>,..                   ScoringMatrix::score_position
 //!     ix=<i>:<v>,..                     StripedScores::index on the generic full scan
+//!     il=<n>                            iter().len() of the generic full scan
+//!     rv=<n>/<values>                   iter().rev() collected
+//!     mx=<v|N>,..                       the `it=` ops (f = next, b = next_back) on one iterator
+//!     of=<i>:<offset>,..                offset(MatrixCoordinates { row: i % rows, col: i / rows })
+//!     cv=ok|<what differs>              From/AsRef/Deref/Default conversions of Scores / StripedScores
 //!   pipelines: g generic, s sse2, a avx2, dg/ds/da Pipeline::dispatch() with the arm forced,
 //!   mg/ms/ma ScoringMatrix::score with the arm forced, md ScoringMatrix::score unforced.
 //!   <res> = `P` (panic) | `<max_index>/<rows>/<row,row,..>` (cells as 8-digit hex, NaN
@@ -31,7 +36,9 @@ use lightmotif::dense::DenseMatrix;
 use lightmotif::num::MultipleOf;
 use lightmotif::num::PositiveLength;
 use lightmotif::num::Unsigned;
-use lightmotif::num::{U16, U32, U48};
+use lightmotif::num::{U16, U32, U48, U64};
+use lightmotif::dense::MatrixCoordinates;
+use lightmotif::scores::Scores;
 use lightmotif::pli::dispatch::Dispatch;
 use lightmotif::pli::verif::force_backend;
 use lightmotif::pli::Pipeline;
@@ -65,6 +72,7 @@ struct Case {
     ranges: Vec<(usize, usize)>,
     pos: Vec<usize>,
     idx: Vec<usize>,
+    itops: String,
 }
 
 fn parse_case(line: &str) -> (String, Case) {
@@ -114,6 +122,7 @@ fn parse_case(line: &str) -> (String, Case) {
         ranges,
         pos: list(&f["pos"]),
         idx: list(&f["idx"]),
+        itops: f.get("it").cloned().filter(|x| x != "-").unwrap_or_default(),
     };
     (id, case)
 }
@@ -194,6 +203,15 @@ impl<A: Alphabet> Cols<A> for U48 {
     }
     fn runners() -> Vec<(&'static str, Runner<A, Self>)> {
         base_runners::<A, U48>()
+    }
+}
+
+impl<A: Alphabet> Cols<A> for U64 {
+    fn stripe(enc: &EncodedSequence<A>) -> StripedSequence<A, Self> {
+        Pipeline::<A, _>::generic().stripe(enc)
+    }
+    fn runners() -> Vec<(&'static str, Runner<A, Self>)> {
+        base_runners::<A, U64>()
     }
 }
 
@@ -358,6 +376,88 @@ fn run_cols<A: Alphabet, C: Cols<A>>(case: &Case) -> String {
                 })
                 .collect();
             out.push(format!("ix={}", if ix.is_empty() { "-".to_string() } else { ix.join(",") }));
+            // the rest of the StripedScores / Scores API on the same scan
+            if let Some(n) = no_panic(|| sc.iter().len()) {
+                out.push(format!("il={}", n));
+            } else {
+                out.push("il=P".to_string());
+            }
+            out.push(format!(
+                "rv={}",
+                no_panic(|| sc.iter().rev().cloned().collect::<Vec<f32>>())
+                    .map(|v| show_values(&v))
+                    .unwrap_or_else(|| "P".to_string())
+            ));
+            if !case.itops.is_empty() {
+                let ops = case.itops.clone();
+                let r = no_panic(|| {
+                    let mut it = sc.iter();
+                    ops.chars()
+                        .map(|o| {
+                            let x = if o == 'f' { it.next() } else { it.next_back() };
+                            match x {
+                                Some(v) => format!("{:08x}", canon(*v)),
+                                None => "N".to_string(),
+                            }
+                        })
+                        .collect::<Vec<String>>()
+                        .join(",")
+                });
+                out.push(format!("mx={}", r.unwrap_or_else(|| "P".to_string())));
+            }
+            let rows = sc.matrix().rows();
+            if rows > 0 {
+                let of: Vec<String> = case
+                    .idx
+                    .iter()
+                    .map(|i| {
+                        let mc = MatrixCoordinates::new(*i % rows, *i / rows);
+                        match no_panic(|| sc.offset(mc)) {
+                            Some(o) => format!("{}:{}", i, o),
+                            None => format!("{}:P", i),
+                        }
+                    })
+                    .collect();
+                out.push(format!("of={}", if of.is_empty() { "-".to_string() } else { of.join(",") }));
+            }
+            let cv = no_panic(|| {
+                let bits = |v: &[f32]| v.iter().map(|x| canon(*x)).collect::<Vec<u32>>();
+                let u: Scores<f32> = sc.unstripe();
+                let want = bits(&u);
+                let mut bad: Vec<&str> = vec![];
+                if bits(&Vec::<f32>::from(sc.clone())) != want {
+                    bad.push("Vec::from(StripedScores)");
+                }
+                if u.len() != want.len() {
+                    bad.push("Deref::len");
+                }
+                if bits(AsRef::<Vec<f32>>::as_ref(&u)) != want {
+                    bad.push("AsRef<Vec>");
+                }
+                let plain: Vec<f32> = Vec::<f32>::from(u.clone());
+                if bits(&plain) != want {
+                    bad.push("Vec::from(Scores)");
+                }
+                if bits(&Scores::new(plain.clone())) != want || bits(&Scores::from(plain)) != want {
+                    bad.push("Scores::new/from");
+                }
+                let d = StripedScores::<f32, C>::default();
+                if d.max_index() != 0 || d.matrix().rows() != 0 || !d.is_empty() || d.unstripe().len() != 0 {
+                    bad.push("Default");
+                }
+                if AsRef::<DenseMatrix<f32, C>>::as_ref(sc).rows() != sc.matrix().rows() {
+                    bad.push("AsRef<DenseMatrix>");
+                }
+                let mut m = sc.clone();
+                if AsMut::<DenseMatrix<f32, C>>::as_mut(&mut m).rows() != sc.matrix().rows() {
+                    bad.push("AsMut<DenseMatrix>");
+                }
+                if sc.is_empty() != (sc.matrix().rows() == 0) {
+                    bad.push("is_empty");
+                }
+                if bad.is_empty() { "ok".to_string() } else { bad.join("+") }
+            });
+            out.push(format!("cv={}", cv.unwrap_or_else(|| "P".to_string())));
         }
         None => {
             out.push("un=-".to_string());
@@ -385,6 +485,8 @@ fn run_case(case: &Case) -> String {
         ("prot", 16) => run_cols::<Protein, U16>(case),
         ("prot", 32) => run_cols::<Protein, U32>(case),
         ("prot", 48) => run_cols::<Protein, U48>(case),
+        ("dna", 64) => run_cols::<Dna, U64>(case),
+        ("prot", 64) => run_cols::<Protein, U64>(case),
         _ => panic!("unsupported configuration"),
     }
 }
@@ -435,10 +537,13 @@ fn gen_case(rng: &mut Rng, id: usize, tier: &str) -> String {
     let thorough = tier == "thorough";
     let abc = if rng.chance(55, 100) { "dna" } else { "prot" };
     let (alpha, k) = if abc == "dna" { (DNA, 5usize) } else { (PROT, 21usize) };
+    // 16 columns is `DefaultColumns` on hosts without AVX2 (and the lane count of the NEON
+    // dispatcher); 48 and 64 exercise more than two 16-column blocks of the SSE2 kernel
     let c: usize = match rng.below(100) {
-        0..=64 => 32,
-        65..=91 => 16,
-        _ => 48,
+        0..=49 => 32,
+        50..=84 => 16,
+        85..=92 => 48,
+        _ => 64,
     };
     // motif width
     let m: usize = match rng.below(100) {
@@ -608,9 +713,16 @@ fn gen_case(rng: &mut Rng, id: usize, tier: &str) -> String {
     idx.sort();
     idx.dedup();
     let join = |v: &[usize]| v.iter().map(|x| x.to_string()).collect::<Vec<_>>().join(",");
+    // next / next_back operations on one iterator of the scores (sometimes more than there are values)
+    let nops = match rng.below(10) {
+        0..=1 => 0,
+        2..=7 => 1 + rng.below(10) as usize,
+        _ => nvals.min(40) + 1 + rng.below(3) as usize,
+    };
+    let itops: String = (0..nops).map(|_| if rng.chance(1, 2) { 'f' } else { 'b' }).collect();
 
     format!(
-        "g{} abc={} C={} M={} L={} pad={:08x} pssm={} seq={} wrap={} rows={} pos={} idx={}",
+        "g{} abc={} C={} M={} L={} pad={:08x} pssm={} seq={} wrap={} rows={} pos={} idx={} it={}",
         id,
         abc,
         c,
@@ -622,7 +734,8 @@ fn gen_case(rng: &mut Rng, id: usize, tier: &str) -> String {
         wrap_s,
         ranges.join(","),
         join(&pos),
-        join(&idx)
+        join(&idx),
+        if itops.is_empty() { "-".to_string() } else { itops }
     )
 }
 
